@@ -336,6 +336,12 @@ def run_query(project, spelling_kind, payload):
             try:
                 with contextlib.redirect_stderr(io.StringIO()):
                     ids = _find_with_filter(argparse.Namespace(job_id=None, filter=list(payload)))
+                    # the selection the other sub-commands (`signac diff/schema/sync/view -f …`) work on: with filter
+                    # arguments it is that same id list (an EMPTY selection is a selection, not "no selection")
+                    from signac.__main__ import _find_with_filter_or_none
+                    sel = _find_with_filter_or_none(argparse.Namespace(job_id=None, filter=list(payload)))
+                    if payload and (sel is None or sorted(sel) != sorted(ids)):
+                        return ("exn", "EOther")
             finally:
                 os.chdir(cwd)
         elif spelling_kind == "str-tokens":
